@@ -301,7 +301,7 @@ func TestVerif_C03(t *testing.T) {
 	}
 	nRand := pick(r, 150, 1500)
 	r.Parallel(len(prod), func(l *Local) {
-		if (l.Batch+int(r.Seed))%cfgStride != 0 {
+		if !r.visit(l.Batch, cfgStride) {
 			return
 		}
 		c := prod[l.Batch]
